@@ -114,3 +114,64 @@ func TestVerifReplayU2FChallengeReuse(t *testing.T) {
 		t.Logf("REPLAY-NOT-REPRODUCED")
 	}
 }
+
+// C16: the in-memory challenge map is shared by every request; run under the race detector (go test -race),
+// a genuine U2F sign response is served while another goroutine uses the map the way every other handler
+// does (under state.Mutex). An access outside the mutex is reported by the detector as a DATA RACE.
+func TestVerifReplayU2FChallengeMapRace(t *testing.T) {
+	state, tmpdir, err := testCreateRuntimeStateWithBothCAs(t)
+	if err != nil {
+		t.Fatal(err)
+	}
+	defer os.RemoveAll(tmpdir)
+	const user = "username"
+	appID := "https://" + state.HostIdentity
+	b64 := func(b []byte) string { return strings.TrimRight(base64.URLEncoding.EncodeToString(b), "=") }
+	key, _ := ecdsa.GenerateKey(elliptic.P256(), rand.Reader)
+	kh := []byte("legacy-token-key-handle-22222222")
+	profile := &userProfile{
+		U2fAuthData: map[int64]*u2fAuthData{1: {Enabled: true, Name: "tok", Registration: verifU2FRegistration(t, key, kh)}},
+	}
+	if err := state.SaveUserProfile(user, profile); err != nil {
+		t.Fatal(err)
+	}
+	challenge := &u2f.Challenge{Challenge: []byte("0123456789abcdef0123456789abcdef"), Timestamp: time.Now(), AppID: appID, TrustedFacets: []string{appID}}
+	state.localAuthData = map[string]localUserData{user: {U2fAuthChallenge: challenge, ExpiresAt: time.Now().Add(time.Minute)}}
+	clientData, _ := json.Marshal(map[string]string{"typ": "navigator.id.getAssertion", "challenge": b64(challenge.Challenge), "origin": appID})
+	rawAuth := []byte{0x01, 0, 0, 0, 7}
+	appParam := sha256.Sum256([]byte(appID))
+	cdHash := sha256.Sum256(clientData)
+	var buf []byte
+	buf = append(buf, appParam[:]...)
+	buf = append(buf, rawAuth...)
+	buf = append(buf, cdHash[:]...)
+	digest := sha256.Sum256(buf)
+	sig, _ := ecdsa.SignASN1(rand.Reader, key, digest[:])
+	signResp, _ := json.Marshal(u2f.SignResponse{KeyHandle: b64(kh), SignatureData: b64(append(append([]byte{}, rawAuth...), sig...)), ClientData: b64(clientData)})
+	cookieVal, err := state.genNewSerializedAuthJWT(user, AuthTypePassword, 60)
+	if err != nil {
+		t.Fatal(err)
+	}
+	stop := make(chan struct{})
+	done := make(chan struct{})
+	go func() { // what VIP / login / cleanup handlers do with the map
+		defer close(done)
+		for {
+			select {
+			case <-stop:
+				return
+			default:
+			}
+			state.Mutex.Lock()
+			_, _ = state.localAuthData["someone-else"]
+			state.Mutex.Unlock()
+		}
+	}()
+	req := httptest.NewRequest("POST", u2fSignResponsePath, bytes.NewReader(signResp))
+	req.AddCookie(&http.Cookie{Name: authCookieName, Value: cookieVal})
+	rec := httptest.NewRecorder()
+	state.u2fSignResponse(&instrumentedwriter.LoggingWriter{ResponseWriter: rec}, req)
+	close(stop)
+	<-done
+	t.Logf("sign response served with status %d while the map was in use under the mutex elsewhere -> see the race detector's report, if any", rec.Code)
+}
